@@ -1,11 +1,15 @@
 import GitSizer.Proofs.RefGroups
 import GitSizer.Gen.Flows
 import GitSizer.Proofs.GenStrs
+import GitSizer.Proofs.Regex
 /-! # C06 — Reference selection follows last-matching-rule semantics
     Theorems about the model of git/ref_filter.go and internal/refopts (tied to the code by the
     `refs` engine: real RefGroupBuilder + pflag + Finish + Categorize). Regular-expression matching
-    itself is Go's `regexp` (trusted; supplied to the model as an oracle computed independently of
-    git-sizer: `^(?:p)$` on the reference name). -/
+    itself is Go's `regexp` (supplied to the model as an oracle computed independently of
+    git-sizer: `^(?:p)$` on the reference name). What "matches the entire reference name" MEANS is defined
+    in `Spec/Regex` (`FullMatch`), decided by `Model/Regex.matchB` (`regexp_entire_name` below), and the
+    `regex` engine judges the real `git.RegexpFilter` — and Go's oracle bits — by it for every pattern of
+    the fragment that `Model/Regex.parse` reads. -/
 namespace GitSizer.C06
 open GitSizer GitSizer.RefFilter GitSizer.RefGroups GitSizer.Spec
 
@@ -84,5 +88,35 @@ theorem default_from_root_arguments :
        ("assign", "rgb.topLevelGroup.filter = git.NoReferencesFilter", ["t", "e"])] := by
   constructor <;> decide +kernel
 
+/-! ## "a /REGEXP/ must match the entire reference name" -/
+
+/-- the executable matcher that judges `git.RegexpFilter` in the `regex` engine decides `FullMatch`:
+    the expression matches the whole name, `^`/`$` looking at the true ends — for every expression and name -/
+theorem regexp_entire_name (r : Regex.Re) (w : Bytes) : Regex.matchB r w = true ↔ Regex.FullMatch r w :=
+  Regex.matchB_iff r w
+
+/-- **the code's anchoring is right**: `RegexpFilter` compiles `"^(?:" + p + ")$"` (pinned by
+    `Pins.Filter.regexp_anchored_prefix_empty`) and asks `MatchString`, which SEARCHES the name for a match;
+    for every expression `r` (the reading of `p`) that search succeeds iff `r` matches the entire name -/
+theorem regexp_anchoring_selects_full_matches (r : Regex.Re) (w : Bytes) :
+    Regex.Search (.seq .bol (.seq r .eol)) w ↔ Regex.FullMatch r w :=
+  Regex.search_anchored_group_iff r w
+
+/-- … and the grouping matters (F1, repaired): without it `^a|b$` reads as `(^a)|(b$)`, which a search finds in
+    "ax" although neither alternative is the whole name -/
+theorem naive_anchoring_differs :
+    let a : Regex.Re := .cls false [(97, 97)]
+    let b : Regex.Re := .cls false [(98, 98)]
+    Regex.Search (.alt (.seq .bol a) (.seq b .eol)) [97, 120] ∧ ¬ Regex.FullMatch (.alt a b) [97, 120] := by
+  refine ⟨(Regex.searchB_iff _ _).mp (by decide), fun h => ?_⟩
+  have := (Regex.matchB_iff _ _).mpr h
+  revert this
+  decide
+
+/-- the reader maps the two spellings to those expressions (kernel evaluation of `Regex.parse`) -/
+example : Regex.parse (Bytes.ofString "^a|b$") =
+    some (.alt (.seq .bol (.seq (.cls false [(97, 97)]) .eps)) (.seq (.cls false [(98, 98)]) (.seq .eol .eps))) := by decide +kernel
+example : Regex.matchB ((Regex.parse (Bytes.ofString "refs/(heads|tags)/v\\d+(\\.\\d+){0,2}")).getD .none) (Bytes.ofString "refs/tags/v1.22") = true := by decide +kernel
+example : Regex.matchB ((Regex.parse (Bytes.ofString "refs/(heads|tags)/v\\d+(\\.\\d+){0,2}")).getD .none) (Bytes.ofString "refs/tags/v1.22.3.4") = false := by decide +kernel
 
 end GitSizer.C06
